@@ -8,6 +8,7 @@ import os
 class Contract:
     def __init__(self, qualname, **kw):
         self.qualname = qualname
+        self.function = qualname.split("#")[0]
         self.types = kw.pop("types", {})  # param -> 'i32[n,2]' | 'int' | 'bool' | 'opaque' | 'none'
         self.shape_syms = kw.pop("shape_syms", None)
         self.requires = kw.pop("requires", [])  # list of str | (label, str)
@@ -47,9 +48,12 @@ class Registry:
         self.sources = {}
         self.assumptions = []
 
-    def contract(self, qualname, **kw):
-        c = Contract(qualname, **kw)
-        self.contracts[qualname] = c
+    def contract(self, qualname, variant=None, **kw):
+        """variant: a second contract of the same function (e.g. under a stronger assumption on an indirect callee)"""
+        key = qualname + ("#" + variant if variant else "")
+        c = Contract(key, **kw)
+        c.function = qualname
+        self.contracts[key] = c
         return c
 
     def interface(self, name, **kw):
